@@ -16,6 +16,7 @@ def run(tree, rep, tier):
     rep.rules["T2"]["floor"] = 500
     rep.rules["T4"]["floor"] = 2000
     flow = Flow(tree)
+    flow.describe(rep)
     W8_info(rep, flow)
     W9_pairing(rep, flow)
     rep.decided += ["2^n+1 basis lines of n Pauli strings each (T7)", "every basis commuting and independent; the bases partition the 4^n-1 non-identity Paulis (T9, exhaustive arithmetic on the literals)",
